@@ -337,6 +337,91 @@ func uciPerftCase(c Case) error {
 	return nil
 }
 
+// tables: castling table, en-passant table (the double push is PLAYED on the engine board), and in the
+// thorough tier complete 4-man classes.
+func tables(rec *evid.Rec) bool {
+	shard, n := evid.Shard()
+	black := []int8{-refchess.Queen, -refchess.Rook, -refchess.Bishop, -refchess.Knight, -refchess.Pawn}
+	visit := func(label string) func(p *refchess.Pos) bool {
+		return func(p *refchess.Pos) bool {
+			legal := p.Legal()
+			rec.Eval(1)
+			b := eng.Direct(p)
+			if d := compare(b, p, legal); d != "" {
+				rec.Violate(label, d, Case{FEN: p.FEN(), Direct: true})
+				return false
+			}
+			castle := false
+			for _, m := range legal {
+				castle = castle || p.IsCastle(m)
+			}
+			if label == "castle_table" {
+				if castle {
+					rec.Class("castle_table_castle_legal")
+				} else {
+					rec.Class("castle_table_no_castle")
+				}
+				rec.NT(evid.HS(p.FEN()))
+			} else if len(legal) != len(p.Pseudo()) {
+				rec.NT(evid.HS(p.FEN()))
+			}
+			return true
+		}
+	}
+	if !gen.CastleTable(black, false, shard, n, visit("castle_table")) {
+		return false
+	}
+	sl, of := shard, n
+	if !evid.Thorough() {
+		of, sl = 4*n, 4*shard+int(evid.Seed()%4)
+	}
+	if !gen.CastleTable(black, true, sl, of, visit("castle_table")) {
+		return false
+	}
+	rec.Exhaustive("castling table: white Ke1 + Ra1/Rh1 with rights v black king + one black piece anywhere (complete); + two black pieces (complete in thorough, 1/4 slice in quick)")
+	sl, of = shard, n
+	if !evid.Thorough() {
+		of, sl = 4*n, 4*shard+int(evid.Seed()/4%4)
+	}
+	ok := gen.EPTable(sl, of, func(parent *refchess.Pos, push refchess.Move) bool {
+		b := eng.Direct(parent)
+		b.MakeMove(eng.Enc(push))
+		succ := parent.Make(push)
+		legal := succ.Legal()
+		rec.Eval(1)
+		if d := compare(b, &succ, legal); d != "" {
+			rec.Violate("ep_table", d, Case{FEN: parent.FEN(), Moves: []string{push.String()}})
+			return false
+		}
+		ep := false
+		for _, m := range legal {
+			ep = ep || succ.IsEP(m)
+		}
+		if ep {
+			rec.Class("ep_table_capture_legal")
+		} else {
+			rec.Class("ep_table_capture_not_legal")
+		}
+		rec.NT(evid.H("ept", parent.FEN()))
+		return true
+	})
+	if !ok {
+		return false
+	}
+	if evid.Thorough() {
+		rec.Exhaustive("en-passant table: pawn on 2nd rank, 1-2 enemy pawns beside its 4th-rank square, both kings and one line piece of either colour anywhere, push played on the engine board (complete)")
+		classes := [][]int8{{refchess.Queen, -refchess.Rook}, {refchess.Rook, -refchess.Bishop}, {refchess.Pawn, -refchess.Pawn}, {refchess.Queen, -refchess.Pawn}, {refchess.Rook, -refchess.Knight}, {refchess.Bishop, refchess.Knight}, {refchess.Pawn, refchess.Pawn}, {-refchess.Queen, refchess.Rook}, {-refchess.Pawn, -refchess.Pawn}, {refchess.Rook, -refchess.Rook}}
+		for _, cl := range classes {
+			if !gen.Enumerate(cl, shard, n, visit("table4")) {
+				return false
+			}
+			rec.Class("table4_class_done")
+		}
+		rec.Exhaustive("4-man classes KQvKR KRvKB KPvKP KQvKP KRvKN KBNvK KPPvK KRvKQ KvKPP KRvKR complete")
+	}
+	return true
+}
+
 func TestC01(t *testing.T) {
 	evid.Main(t, "C01", func(rec *evid.Rec) {
 		if err := refchess.SelfTest(gen.RepoDir()+"/debug/standard.epd", 2); err != nil {
@@ -367,6 +452,9 @@ func TestC01(t *testing.T) {
 		})
 		rec.Rapid(t, "perft", evid.Pick(8000, 100000), perftProp(rec))
 		table3(rec)
+		if !tables(rec) {
+			return
+		}
 		uciPerft(rec)
 	}, func(check string, raw json.RawMessage) error {
 		var c Case
